@@ -427,7 +427,10 @@ def e2e_case(ctx: Ctx):
         t = ts5[4] + rng.randint(1, 50)
     return {"tag": "e2e", "freq": f, "k": rng.choice(["2", "4"]), "host_epoch": float(rng.randrange(1 << 20, 1 << 30)),
             "dev_epoch": rng.randrange(0, 1 << 31), "slices": slices,
-            "host": [[10.0, t + 10.0]]}
+            "host": [[10.0, t + 10.0]],
+            # the statement holds for every option set: vary switches that change which other stages run
+            "opts": rng.choice([[], [], ["--drop_globals"], ["-M"], ["-t"], ["--disable_tb"],
+                                ["--drop_globals", "-t"]])}
 
 
 def run_e2e(case):
@@ -443,7 +446,8 @@ def run_e2e(case):
     res = []
     for fr in (Fraction(f), Fraction(f) * Fraction(case["k"])):
         with contextlib.redirect_stdout(io.StringIO()):
-            r = stage.e2e([f"--freq={_freq_arg(fr)}:1100", "--keep_prep"], {"trace_rank_0.json": copy.deepcopy(inp)})
+            r = stage.e2e([f"--freq={_freq_arg(fr)}:1100", "--keep_prep", *case.get("opts", [])],
+                          {"trace_rank_0.json": copy.deepcopy(inp)})
         res.append(r)
     return inp, res
 
@@ -463,6 +467,8 @@ def oracle_e2e(case, inp, res):
     for uid, b in begins.items():
         e_in = ends[uid]
         o1, o2 = outs[0].get(uid), outs[1].get(uid)
+        if "--drop_globals" in case.get("opts", []) and b.get("attr") is None and o1 is None and o2 is None:
+            continue        # documented removal of the global host slices (C01), not C06's business
         if o1 is None or o2 is None:
             return ("c06-lost", f"slice {uid} missing in the exported trace")
         a = b.get("attr")
